@@ -551,7 +551,7 @@ def replay_path(path):
         ob = {'part': meta['part'], 'needs_parts': meta.get('needs_parts', []), 'harness': meta['harness'], 'id': meta['obligation']}
         outdir = tempfile.mkdtemp(prefix='replay_', dir=slot.scratch)
         reproduced, out = native_replay(slot, ob, meta['caps'], test, outdir, meta.get('consts'), meta.get('fail_locs'))
-        tail = '\n'.join(out.splitlines()[-25:])
+        tail = '\n'.join(l[:240] for l in out.splitlines()[-25:] if 'rustdoc' not in l[:400])
         log(tail)
         if reproduced:
             log('VIOLATION property=%s replay=%s' % (meta['property'], path))
